@@ -90,6 +90,17 @@ def gen(tier, rng, boost=1):
                 for n in NS:
                     ops.append(read_op(rng, ty, bom, t, n=n))
     ops.append("utf.read 32 8 skip 3f utf8 -")
+    # BOM-less detection: ASCII first character followed by every kind of second character (control characters, Latin-1, BMP, supplementary):
+    # the zero-byte pattern analysis must not confuse UTF-16 with UTF-32 or UTF-8
+    seconds = [1, 2, 9, 0x0A, 0x0D, 0x0F, 0x10, 0x11, 0x1F, 0x20, 0x7F, 0x80, 0xFF, 0x100, 0x101, 0x7FF, 0x800, 0xFFFD, 0xFFFF, 0x10000, 0x10001, 0x10FFFF]
+    for ty in TYPES:
+        for first in (0x31, 0x41, 0x78, 0x7E, 0x01, 0x09, 0x7F):
+            for second in seconds:
+                for tail in ([], [0x0A, 0x32], [0x0D, 0x0A, 0x31, 0x0D, 0x0A]):
+                    t = [first, second] + tail
+                    bs = to_bytes(ty, encs(WIDTH[ty], t))
+                    ops.append(f"utf.detect {hexb(bs)}")
+                    ops.append(read_op(rng, ty, 0, t))
     # boundary placement: a multi-unit scalar at every offset around the chunk boundary
     specials = [0xE9, 0x20AC, 0x1F600, 0x10FFFF, 0x7FF, 0x800]
     for ty in TYPES:
@@ -156,4 +167,12 @@ def gen(tier, rng, boost=1):
             parts.append(units(wi, us))
         parts.append(units(wi, encs(wi, [rand_scalar(rng) for _ in range(rng.choice([1, 4]))])))
         ops.append(f"utf.write {ty} {rng.choice([0, 1])} {pol} {wi} {';'.join(parts)}")
+    # the CSV / JSON / XML stream entry points: a table saved in each encoding (BOM on/off) whose encoded size is a multiple of the
+    # 256-byte chunk (-1 / 0 / +1) or arbitrary, loaded back with automatic detection
+    for arch in ("csv", "json", "xml"):
+        for ty in TYPES:
+            for bom in (0, 1):
+                for delta in ("0", "0", "-1", "1", "n"):
+                    for _ in range(1 if tier == "quick" else 12):
+                        ops.append(f"enc.rt {arch} {ty} {bom} {rng.randrange(1, 2 ** 31)} {delta}")
     return ops
